@@ -35,6 +35,10 @@ Section ListHelpers.
     match arms with [] => true | (_, t) :: r => f t && all_branches r end.
   Fixpoint last_of (es : list expr) : bool :=
     match es with [] => true | e :: r => match r with [] => f e | _ => last_of r end end.
+  Variable g : expr -> bool.
+  (* arms whose conditions do not satisfy g *)
+  Fixpoint cond_arms (arms : list (expr * expr)) : bool :=
+    match arms with [] => true | (c, t) :: r => negb (g c) && f c && f t && cond_arms r end.
 End ListHelpers.
 
 (* e mentions the value of x *)
@@ -65,7 +69,8 @@ Fixpoint esc (e : expr) : bool :=
   match e with
   | ENull | EBool _ | EInt _ | EId _ => false
   | EContinue | EBreak _ => true
-  | EWhile _ _ | EUntil _ _ | ELoop _ => false
+  | EWhile c _ | EUntil c _ => esc c      (* a loop catches the jumps of its body *)
+  | ELoop _ => false
   | ENested a | ENeg a | ENot a | EAssign _ a | EOpAssign _ _ a => esc a
   | EArith _ a b | ECmp _ a b | ELogic _ a b => esc a || esc b
   | EBlock es => any_list esc es
@@ -163,14 +168,33 @@ Fixpoint dropped (d : bool) (e : expr) : bool :=
 
 Definition known_C01 (p : program) : bool := any_list known_expr p || drop_block dropped false p.
 
+(* break / continue may only travel through statement positions: block items, branches of an if,
+   loop bodies, parentheses -- not through operands, conditions, right-hand sides, break values *)
 Fixpoint wf_expr (e : expr) : bool :=
   match e with
   | ENull | EBool _ | EInt _ | EId _ | EContinue | EBreak None => true
-  | ENested a | ENeg a | ENot a | ELoop a | EOpAssign _ _ a => wf_expr a
-  | EAssign _ a | EBreak (Some a) => negb (esc a) && wf_expr a
-  | EArith _ a b | ECmp _ a b | ELogic _ a b => wf_expr a && wf_expr b
+  | ENested a | ELoop a => wf_expr a
+  | ENeg a | ENot a | EOpAssign _ _ a | EAssign _ a | EBreak (Some a) => negb (esc a) && wf_expr a
+  | EArith _ a b | ECmp _ a b | ELogic _ a b => negb (esc a) && negb (esc b) && wf_expr a && wf_expr b
   | EWhile c b | EUntil c b => negb (esc c) && wf_expr c && wf_expr b
   | EBlock es => all_list wf_expr es
-  | EIf c t elifs els => all_arms wf_expr ((c, t) :: elifs) && all_opt wf_expr els
+  | EIf c t elifs els =>
+    cond_arms wf_expr esc ((c, t) :: elifs) &&
+    all_opt wf_expr els
   end.
 Definition wf0 (p : program) : bool := all_list wf_expr p.
+
+(* e is a bare break / continue (through parentheses / as the last item of a block): compile_node
+   returns no register for it whatever the result mode *)
+Fixpoint is_jump (e : expr) : bool :=
+  match e with
+  | EBreak _ | EContinue => true
+  | ENested a => is_jump a
+  | EBlock es =>
+    (fix last (es : list expr) : bool :=
+       match es with
+       | [] => false
+       | e :: r => match r with [] => is_jump e | _ => last r end
+       end) es
+  | _ => false
+  end.
